@@ -81,7 +81,7 @@ theorem resetAll_sigma (s : St) (L : List Nat) (nd : L.Nodup) (k' : Nat) :
   rw [this]
   cases hr : s.key k' <;> simp [core]
 
-theorem resetAll_refines (s : St) (hd : NoDueRm s) (l : List (Nat × Nat)) :
+theorem resetAll_refines (s : St) (l : List (Nat × Nat)) :
     abs ((keyList s).foldl resetAllStep (s, l)).1 = specStep (abs s) (failedOf s) .resetAll := by
   rw [foldl_fst resetAllStep (fun s k => (resetKey s k).1) (fun _ _ => rfl)]
   have hs := resetAll_sigma s (keyList s) (nodup_keyList s)
@@ -90,7 +90,7 @@ theorem resetAll_refines (s : St) (hd : NoDueRm s) (l : List (Nat × Nat)) :
   rw [abs_of_sigma s _ hf
     (fun k => if (s.key k).isSome then some (s.ctors k + 1, none) else none)
     (fun k => if (s.key k).isSome then s.ctors k + 1 else s.ctors k)]
-  · simp only [specStep, renSt, renCtor, inSet_abs s hd]
+  · simp only [specStep, renSt, renCtor, inSet_abs s]
     congr 1
     funext k
     cases hr : s.key k <;> simp [absCore, nctor_abs]
